@@ -4,7 +4,8 @@
 cd /verif || exit 2
 ids="$@"; [ -n "$ids" ] || ids=$(ls seeded | grep -v README)
 for n in $ids; do
-  c=$(python3 -c "import json;print(json.load(open('seeded/$n/meta.json'))['caught_by'][0])")
+  c=$(python3 -c "import json;print((json.load(open('seeded/$n/meta.json'))['caught_by'] or [''])[0])")
+  if [ -z "$c" ]; then echo "$n OPEN (no check catches it yet; see seeded/README.md)"; continue; fi
   s=$(date +%s)
   out=$(bash tools/try_seeded.sh "$n" "$c" 2>&1); echo "$out" > /tmp/regress_$n.out
   e=$(date +%s)
